@@ -6,7 +6,7 @@ import z3
 import common
 import e2
 import srcsym
-from e2 import conj, disj
+from e2 import conj, disj, opq, calls, result_kind
 from mirsym import Exec, State, Opq, Agg, Ref, StrC, Seq, Val, Unsupported
 
 LEVEL = "model_checking"
@@ -114,6 +114,133 @@ def template_ops(tpl):
         elif kinds == ["lit", "child", "lit", "child", "lit"] and t[0][1].endswith("(") and t[4][1] == ")":
             out[v] = ("call2", t[0][1][:-1], t[1][1], t[3][1])
     return out
+
+
+TAILS = {"IfElse": ["then", "el"], "Match": ["cases"], "Case": ["body"], "TryExcept": ["attempt", "except"],
+         "ExceptId": ["body"], "Except": ["body"]}
+PLAIN = ["Add", "Id", "Int", "FunctionCall", "PropertyCall", "Ternary", "Tuple", "Str", "Not", "Index"]
+
+RET_PROGRAMS = [
+    ("tail-if-else", "def f(x: Int) -> Int =>\n    if x > 1 then\n        10\n    else\n        20\nprint(f(0))\nprint(f(5))", "20\n10"),
+    ("tail-nested-if", "def f(x: Int) -> Int =>\n    if x > 1 then\n        if x > 3 then\n            1\n        else\n            2\n    else\n        3\nprint(f(5))\nprint(f(2))\nprint(f(0))", "1\n2\n3"),
+    ("tail-block", "def f(x: Int) -> Int =>\n    def y := x + 1\n    y * 2\nprint(f(1))", "4"),
+    ("tail-match", "def f(x: Int) -> Int =>\n    match x\n        1 => 10\n        _ => 20\nprint(f(1))\nprint(f(3))", "10\n20"),
+    ("tail-handle-anonymous-arm", "class MyErr(msg: Str): Exception(msg)\n\ndef risky(x: Int) -> Int raise [MyErr] =>\n    if x > 2 then raise MyErr(\"too big\") else x * 2\n\ndef safe(x: Int) -> Int =>\n    risky(x) handle\n        _: MyErr => -1\n\nprint(safe(1))\nprint(safe(7))", "2\n-1"),
+    ("tail-handle-named-arm", "class MyErr(msg: Str): Exception(msg)\n\ndef risky(x: Int) -> Int raise [MyErr] =>\n    if x > 2 then raise MyErr(\"too big\") else x * 2\n\ndef named(x: Int) -> Int =>\n    risky(x) handle\n        err: MyErr => -1\n\nprint(named(1))\nprint(named(7))", "2\n-1"),
+    ("tail-explicit-return", "def f(x: Int) -> Int =>\n    return x + 1\nprint(f(1))", "2"),
+    ("assign-if-expression", "def x := if True then 1 else 2\nprint(x)", "1"),
+    ("assign-match-expression", "def a := 3\ndef x: Int := match a\n    1 => 10\n    _ => 20\nprint(x)", "20"),
+]
+
+
+def ret_family(rp):
+    bad, n = [], 0
+    for role, src, want in RET_PROGRAMS:
+        for ann in (False, True):
+            n += 1
+            st, out = rp.transpile(src, ann)
+            if st != "OK":
+                bad.append({"role": role, "src": src, "why": f"{st}: {out[:100]}"})
+                break
+            rc, so, se = py_run(out)
+            if rc != 0 or so.strip() != want:
+                bad.append({"role": role, "src": src, "why": f"annotate={ann}: prints {so.strip()!r} (rc={rc} {se[-80:]}), expected {want!r}"})
+                break
+    return n, bad
+
+
+def ob_tail_distribution(run, mir, rp):
+    """append_ret / append_assign push the return / assignment into every tail position and nowhere else."""
+    lay = e2.rust_enum("src/generate/ast/node.rs", "Core")
+    for fname, wrap in (("append_ret", "Return"), ("append_assign", "VarDef")):
+        ob = run.ob(f"{fname.replace('_', '-')}-distribution", "E2", f"{fname}: for if/else, match, case, try/except and both "
+                    "except forms the operation is applied to exactly the tail positions (branches, arms, bodies, last "
+                    "statement of a block) and all other fields are kept; return / raise are left alone; any other node is "
+                    f"wrapped in a {wrap}", [fname, "skip_return", "skip_assign"])
+        try:
+            fn = e2.find1(mir, file=CONVERT_RS, name=fname)
+            claims = []
+            ex = Exec(mir, max_paths=5000, inline=[r"^skip_return$", r"^skip_assign$"])
+            extra_args = lambda ex_, st_: [] if fname == "append_ret" else [Ref(ex_.new_cell(st_, opq("assign_to", "Core"))), Ref(ex_.new_cell(st_, opq("name", "Option<Name>"))), Ref(ex_.new_cell(st_, opq("imp", "Imports")))]
+            for v in list(TAILS) + ["Return", "Raise"] + PLAIN:
+                if v not in lay:
+                    raise Unsupported(f"Core::{v} not found")
+                fields = lay[v] or []
+                st = State()
+                vals = [opq(f"{v}.{f}", "Box<Core>") for f in fields]
+                core = Agg("Core", v, vals, fields if fields else None)
+                xs = extra_args(ex, st)
+                ends = e2.run_kernel(run, ex, fn, [Ref(ex.new_cell(st, core))] + xs, st)
+                for p in ends:
+                    c = conj(p.cond)
+                    s = p.state
+                    if p.kind != "return" or not isinstance(p.ret, Agg):
+                        claims.append(z3.Not(c))
+                        continue
+                    r = p.ret
+                    if v in TAILS:
+                        ok = [z3.BoolVal(r.variant == v and list(r.names or []) == list(fields))]
+                        if r.variant == v and list(r.names or []) == list(fields):
+                            for f, old, new in zip(fields, vals, r.fields):
+                                if f in TAILS[v]:
+                                    rest = [ex.to_val(s, x) for x in xs]
+                                    one = ex.app(fname, [old] + xs, "Core", s)
+                                    many = ex.app("Iterator::collect", [ex.app("Iterator::map", [ex.app("iter", [old], "Iter", s),
+                                                  ex.fnval(fname)], "Map", s)], "Vec<Core>", s)
+                                    nv = ex.to_val(s, new)
+                                    if fname == "append_ret":
+                                        ok.append(z3.Or(nv == ex.to_val(s, one), nv == ex.to_val(s, many)))
+                                    else:
+                                        # the closure of append_assign captures its extra arguments: compare by the call events
+                                        evs = [e_ for e_ in p.events if e_["name"] == fname and z3.eq(e_["argvals"][0], ex.to_val(s, old))]
+                                        viamap = any(e_["name"] == "Iterator::map" and z3.eq(e_["argvals"][0], ex.to_val(s, ex.app("iter", [old], "Iter", s))) for e_ in p.events)
+                                        ok.append(z3.BoolVal(bool(evs) or viamap))
+                                        if evs:
+                                            ok.append(nv == ex.to_val(s, evs[0]["ret"]))
+                                        ok.append(nv != ex.to_val(s, old) if False else z3.BoolVal(True))
+                                else:
+                                    ok.append(ex.to_val(s, new) == ex.to_val(s, old))
+                        claims.append(z3.Implies(c, conj(ok)))
+                    elif v in ("Return", "Raise"):
+                        claims.append(z3.Implies(c, ex.to_val(s, r) == ex.to_val(s, core)))
+                    else:
+                        if fname == "append_ret":
+                            claims.append(z3.Implies(c, z3.And(z3.BoolVal(r.variant == "Return"), ex.to_val(s, r.fields[0]) == ex.to_val(s, core)) if r.variant == "Return" else z3.BoolVal(False)))
+                        else:
+                            okv = r.variant == "VarDef" and r.names and "expr" in r.names
+                            claims.append(z3.Implies(c, z3.BoolVal(bool(okv))))
+            # Block: the operation goes to the last statement
+            st = State()
+            stmts = opq("Block.statements", "Vec<Core>")
+            core = Agg("Core", "Block", [stmts], ["statements"])
+            xs = extra_args(ex, st)
+            ends = e2.run_kernel(run, ex, fn, [Ref(ex.new_cell(st, core))] + xs, st)
+            for p in ends:
+                if p.kind == "panic":
+                    continue            # len() - 1 on a vector that has a last element
+                c = conj(p.cond)
+                s = p.state
+                lasts = calls(p, "last")
+                rec = calls(p, fname)
+                idx = calls(p, "Vec.IndexMut::index_mut")
+                if rec:
+                    lastv = ex.project(s, ex.project(s, lasts[0]["ret"], ("v", "Some")), ("f", 0), "&Core") if lasts else None
+                    ok = bool(lasts) and bool(idx) and z3.eq(rec[0]["argvals"][0], ex.to_val(s, lastv))
+                    claims.append(z3.Implies(c, z3.BoolVal(bool(ok))))
+                    if ok:
+                        ln = ex.uf("seq:len", Val, z3.BitVecSort(64))(ex.to_val(s, stmts))
+                        claims.append(z3.Implies(c, idx[0]["argvals"][1] == ex.to_val(s, ln - 1)))
+                else:
+                    claims.append(z3.Implies(c, z3.BoolVal(bool(lasts))))
+
+            def rp_ret(model):
+                n, bad = ret_family(rp)
+                if bad:
+                    return {"reproduced": True, "role": f"{fname}:{bad[0]['role']}", "detail": f"{bad[0]['src']!r}: {bad[0]['why']}"}
+                return {"reproduced": False, "detail": f"{n} implicit-return / expression-assignment programs behave as documented"}
+            e2.prove_each(run, ob, ex, [], claims, {}, rp_ret)
+        except Unsupported as e:
+            ob.inconclusive(f"unsupported: {e}")
 
 
 def run(run):
@@ -378,10 +505,20 @@ def run(run):
     except Unsupported as e:
         obR.inconclusive(str(e))
 
+    ob_tail_distribution(run, mir, rp)
+    # grouping is meaning: the printer's parenthesisation decision (the C10 obligations) is part of this property too
+    try:
+        from props import C10
+        C10.run(run)
+    except Unsupported as e:
+        run.ob("operands-delimited-encoding", "E3+E2", "printer kernels encodable").inconclusive(str(e))
+
     if run.clean():
         n1, b1 = operator_family(rp)
         n2, b2 = range_family(rp)
-        run.validated += n1 + n2
+        n3, b3 = ret_family(rp)
+        b2 = b2 + b3
+        run.validated += n1 + n2 + n3
         if b1 or b2:
             run.ob("family-operators", "native", "replay programs behave as documented").inconclusive(str((b1 + b2)[:2])[:600])
     rp.close()
